@@ -41,8 +41,9 @@ def lib_state(d):
     return out
 
 
-def check_parse(ctx, L, rng):
-    toks = gen_code_list(rng, maxn=rng.choice([0, 1, 2, 3, 5, 8, 10]))
+def check_parse(ctx, L, rng, toks=None):
+    if toks is None:
+        toks = gen_code_list(rng, maxn=rng.choice([0, 1, 2, 3, 5, 8, 10]))
     body = ';'.join(str(t) for t in toks)
     p = M.parse_params(body)
     if p.grey and p.grey != 'ext-colour-bad-selector':
@@ -217,6 +218,24 @@ def drive(ctx, mon, tier, only_case=None):
     L = ctx.L
 
     def body(rng, ex, case):
+        if case == 0:
+            import itertools
+            alphabet = [0, 1, 22, 31, 39, 38, 48, 5, 2, 7, 99]
+            depth = 4 if tier == 'thorough' else 3
+            nsh = ctx.extra.get('nshards', 1)
+            k = 0
+            n_in = 0
+            with mon.quiet():
+                for d in range(0, depth + 1):
+                    for combo in itertools.product(alphabet, repeat=d):
+                        k += 1
+                        if k % nsh != ctx.shard:
+                            continue
+                        n_in += 1
+                        check_parse(ctx, L, rng, toks=list(combo))
+            ctx.extra['n_small_scope_inputs'] = n_in
+            ctx.extra['small_scope'] = 'exhaustive over code lists of length 0..%d over %r' % (depth, alphabet)
+            return
         with mon.quiet():
             for _ in range(8):
                 check_parse(ctx, L, rng)
